@@ -39,6 +39,10 @@ class VLoop(asyncio.SelectorEventLoop):
     def time(self) -> float:
         return self._vtime
 
+    def advance(self, dt: float) -> None:
+        """Move the virtual clock forward (timers due by then fire on the next iterations)."""
+        self._vtime += dt
+
     def _run_once(self) -> None:
         self.cycle += 1
         if self.cycle > self.budget:
